@@ -109,6 +109,7 @@ func (l *Lexer) NextToken() token.Token {
 
 	if l.char == '{' && l.peekChar() == '{' {
 		start := l.pos
+		wasHTML := l.isHTML
 		tok := l.bracesToken(token.LBRACES, "{{")
 
 		if l.char == '-' && l.peekChar() == '-' {
@@ -117,6 +118,10 @@ func (l *Lexer) NextToken() token.Token {
 			if !l.skipComment() {
 				return l.newToken(token.ILLEGAL, l.input[start:])
 			}
+
+			// a comment leaves the lexer where it was: in HTML, or still
+			// inside "{{ }}" or the arguments of a directive
+			l.isHTML = wasHTML
 
 			return l.NextToken()
 		}
